@@ -30,4 +30,122 @@ def Encodable (r : Request) : Prop := okRequest r = true ∧ lvalidB (encRequest
 
 instance (r : Request) : Decidable (Encodable r) := by unfold Encodable; exact inferInstance
 
+/-! ### the lenient byte reader inverts `encode` -/
+
+theorem padLen4 : padLen 4 = 4 := by decide
+theorem padLen8 : padLen 8 = 0 := by decide
+def textOkP : PVal → Bool
+  | .textString s => Prim.validUtf8 s
+  | _ => true
+
+theorem zeros0 (tail : Bytes) : zeros 0 ++ tail = tail := rfl
+
+theorem lenientVal_valBytes (v : PVal) (h : v.Valid) (ht : textOkP v = true) (tail : Bytes) :
+    lenientVal v.typeCode v.valBytes.length (v.valBytes ++ (zeros (padLen v.valBytes.length) ++ tail)) = some (v, tail) := by
+  cases v with
+  | integer x =>
+    simp only [PVal.Valid] at h
+    simp only [PVal.typeCode, PVal.valBytes, be_length, lenientVal, padLen4, ↓reduceIte]
+    rw [Prim.read4Pad_append _ _ (toTC_lt 4 x)]
+    simp only [ofTC_toTC 4 x h]
+  | longInteger x =>
+    simp only [PVal.Valid] at h
+    simp only [PVal.typeCode, PVal.valBytes, be_length, lenientVal, padLen8, zeros0, Nat.reduceEqDiff, ↓reduceIte]
+    rw [takeExact_append' _ _ 8 (be_length _ _)]
+    simp only [ofBE_be _ _ (toTC_lt 8 x), ofTC_toTC 8 x h]
+  | bigInteger x len =>
+    simp only [PVal.Valid] at h
+    obtain ⟨h8, hpos, _, hfit⟩ := h
+    have hp : padLen len = 0 := by unfold padLen; omega
+    simp only [PVal.typeCode, PVal.valBytes, be_length, lenientVal, hp, zeros0, Nat.reduceEqDiff, ↓reduceIte]
+    rw [if_pos ⟨h8, hpos⟩, takeExact_append' _ _ len (be_length _ _)]
+    simp only [ofBE_be _ _ (toTC_lt len x), ofTC_toTC len x hfit]
+  | enumeration x =>
+    simp only [PVal.Valid] at h
+    simp only [PVal.typeCode, PVal.valBytes, be_length, lenientVal, padLen4, Nat.reduceEqDiff, ↓reduceIte]
+    rw [Prim.read4Pad_append _ _ h]
+  | boolean b =>
+    simp only [PVal.typeCode, PVal.valBytes, be_length, lenientVal, padLen8, zeros0, Nat.reduceEqDiff, ↓reduceIte]
+    rw [takeExact_append' _ _ 8 (be_length _ _)]
+    cases b
+    · simp only [Bool.false_eq_true, ↓reduceIte, ofBE_be 8 0 (by decide)]
+      rfl
+    · simp only [↓reduceIte, ofBE_be 8 1 (by decide)]
+  | textString s =>
+    simp only [textOkP] at ht
+    simp only [PVal.typeCode, PVal.valBytes, lenientVal, Nat.reduceEqDiff, ↓reduceIte]
+    rw [Prim.readPadded_append]
+    simp only [ht, ↓reduceIte]
+  | byteString s =>
+    simp only [PVal.typeCode, PVal.valBytes, lenientVal, Nat.reduceEqDiff, ↓reduceIte]
+    rw [Prim.readPadded_append]
+  | dateTime x =>
+    simp only [PVal.Valid] at h
+    simp only [PVal.typeCode, PVal.valBytes, be_length, lenientVal, padLen8, zeros0, Nat.reduceEqDiff, ↓reduceIte]
+    rw [takeExact_append' _ _ 8 (be_length _ _)]
+    simp only [ofBE_be _ _ (toTC_lt 8 x), ofTC_toTC 8 x h]
+  | interval x =>
+    simp only [PVal.Valid] at h
+    simp only [PVal.typeCode, PVal.valBytes, be_length, lenientVal, padLen4, Nat.reduceEqDiff, ↓reduceIte]
+    rw [Prim.read4Pad_append _ _ h]
+mutual
+/-- one item followed by anything -/
+theorem lparse_item : ∀ (i : TItem), i.Valid → textOkB i = true → ∀ (f : Nat) (tail : Bytes), (encode i).length ≤ f →
+    lparseList (f + 1) (encode i ++ tail) = i :: lparseList f tail
+  | .prim t v, hv, ht, f, tail, _ => by
+    have hv' : tagOk t = true ∧ v.Valid := by simpa only [Item.Valid] using hv
+    obtain ⟨htag, hvv⟩ := hv'
+    have htx : textOkP v = true := by cases v <;> first | rfl | (simpa only [textOkB, textOkP] using ht)
+    obtain ⟨b, bs, hb⟩ := encode_cons (.prim t v) tail
+    rw [hb, lparseList, ← hb]
+    simp only [encode, List.append_assoc]
+    rw [splitHeader_header _ _ _ _ (tagOk_lt t htag) (typeCode_lt v) (valBytes_length_lt v hvv)]
+    simp only [typeCode_ne_one v, if_false]
+    rw [lenientVal_valBytes v hvv htx tail]
+  | .struct t ks, hv, ht, f, tail, hf => by
+    have hv' : tagOk t = true ∧ validList ks ∧ (encodeList ks).length < 256 ^ 4 := by
+      simpa only [Item.Valid] using hv
+    obtain ⟨htag, hks, hlen⟩ := hv'
+    have htk : textOkListB ks = true := by simpa only [textOkB] using ht
+    have hf' : (encodeList ks).length + 1 ≤ f := by
+      simp only [encode, List.length_append, header_length] at hf; omega
+    obtain ⟨b, bs, hb⟩ := encode_cons (.struct t ks) tail
+    rw [hb, lparseList, ← hb]
+    simp only [encode, List.append_assoc]
+    rw [splitHeader_header _ _ _ _ (tagOk_lt t htag) (by decide) hlen]
+    simp only [if_true, List.take_left', List.drop_left']
+    rw [lparse_list ks hks htk f hf']
+/-- the children of a structure -/
+theorem lparse_list : ∀ (ks : List TItem), validList ks → textOkListB ks = true → ∀ (f : Nat),
+    (encodeList ks).length + 1 ≤ f → lparseList f (encodeList ks) = ks
+  | [], _, _, f, _ => by
+    cases f <;> simp [encodeList, lparseList]
+  | i :: is, hv, ht, f, hf => by
+    have hv' : i.Valid ∧ validList is := by simpa only [validList] using hv
+    obtain ⟨hi, his⟩ := hv'
+    have ht' : textOkB i = true ∧ textOkListB is = true := by simpa only [textOkListB, Bool.and_eq_true] using ht
+    have h8 := encode_length_ge i
+    simp only [encodeList, List.length_append] at hf
+    cases f with
+    | zero => omega
+    | succ f =>
+      simp only [encodeList]
+      rw [lparse_item i hi ht'.1 f (encodeList is) (by omega), lparse_list is his ht'.2 f (by omega)]
+end
+
+/-- **the lenient reader gives back the tree of every valid request structure** -/
+theorem lenientTop_encode (t : Nat) (ks : List TItem) (h : lvalidB (.struct t ks) = true) :
+    lenientTop (encode (.struct t ks)) = .struct t ks := by
+  simp only [lvalidB, Bool.and_eq_true] at h
+  have hv := validB_sound _ h.1
+  have hv' : tagOk t = true ∧ validList ks ∧ (encodeList ks).length < 256 ^ 4 := by
+    simpa only [Item.Valid] using hv
+  obtain ⟨htag, hks, hlen⟩ := hv'
+  have htk : textOkListB ks = true := by simpa only [textOkB] using h.2
+  unfold lenientTop
+  simp only [encode]
+  rw [splitHeader_header _ _ _ _ (tagOk_lt t htag) (by decide) hlen]
+  simp only [if_true]
+  rw [lparse_list ks hks htk _ (by omega)]
+
 end Kmip.EncodeRequest
